@@ -421,6 +421,22 @@ def run(F, rep, tier):
             rep.ok('R5.8', fn, 'operands parsed by %s in a loop (%d call sites), no self-recursion' % (sub.rsplit('::', 1)[-1], len(subs)))
         else:
             rep.viol('R5.8', fn + '|layering', '%s parses an operand by calling itself or no longer loops over %s (self calls %d, %s calls %d): the grouping of and / or / coalesce chains changes' % (fn.rsplit('::', 1)[-1], sub.rsplit('::', 1)[-1], len(selfrec), sub.rsplit('::', 1)[-1], len(subs)), (selfrec or subs or [None])[0].loc() if (selfrec or subs) else None)
+    # a (re)declaration always installs the declared type: on every path of Env::insert that does not raise, the `ty` argument is stored
+    insb = F.body('core::Env::insert') if F.has_fn('core::Env::insert') else None
+    if insb is None:
+        rep.error('R5.5', 'Env::insert missing')
+    else:
+        ty_local = 3          # (&mut self, key, ty, val): locals 1..4
+        uses = set()
+        for bb in insb.reach:
+            for s_ in insb.stmts(bb):
+                if s_[0] == 'a' and any(isinstance(x, list) and len(x) > 1 and x[0] in ('m', 'c') and x[1] and x[1][0] == ty_local for x in ([s_[2][1]] if s_[2][0] == 'use' else (s_[2][5] if s_[2][0] == 'agg' and len(s_[2]) > 5 else []))):
+                    uses.add(bb)
+        okret = {bb for bb, s_ in insb.aggregates() if s_[1] == [0] and s_[2][4] == 'Ok'}
+        if uses and okret and insb.every_path_passes(0, okret, uses):
+            rep.ok('R5.5', 'Env::insert stores the declared type', 'every successful path moves `ty` into the entry')
+        else:
+            rep.viol('R5.5', 'core::Env::insert|type-not-stored', 'Env::insert has a successful path on which the declared type is not stored (a redeclaration that keeps the old entry): after `x: int = 1; x: str = \'a\'` the variable still has type int', insb.loc(0))
     # ---------------- R5.10
     rep.rule('R5.10', '`for .. yield e into first` stops at the first element: CataFirst::give ends the loop by returning Err(Break(0, Some(value))) '
              '(the loop sites absorb Break(0), R5.4), so later iterations - their side effects, errors and non-termination - do not happen')
